@@ -13,6 +13,12 @@ CLAIMED = {
             "DESIGN.md section 4 C06"),
 }
 
+CLAIMED["C01"] = (
+    "rapid-generated route sets and requests + small-scope enumeration, oracle = reference matcher over the flat route list (documented priority) and a priority-free brute force for the iff",
+    "Random valid route sets (shared segment pool, random order, 1..2 methods) and constructed/mutated request paths are matched by route.Tree.Match and served by Flame.ServeHTTP; found/not-found must equal 'some route form admits the path' (brute force over alignments) and the winner must equal the reference matcher's. Plus every ordered set of <=2 (thorough <=3) compatible routes of a 12-route pool against all 780 paths of <=4 segments over 5 values.",
+    "trusts the reference matcher internal/model/match.go (written from the statement) and Go's regexp for segment admission; only registrations the statement obliges the router to accept are used",
+    "DESIGN.md section 4 C01")
+
 PENDING = {}
 
 def main():
